@@ -37,6 +37,10 @@ def inner_graph(kind, mapped, fail_vals=(), branch_vals=()):
         nodes = [IR.func("F", ins, ["p"], fail_args=list(fail_vals))]
     elif kind == "chain":
         nodes = [IR.func("F", list(mapped), ["p"], fail_args=list(fail_vals)), IR.func("H", ["p", "b"], ["q"])]
+    elif kind == "chain2":
+        # the item fails in its SECOND node, after `p` has already been produced
+        m0 = mapped[0]
+        nodes = [IR.func("F", [m0], ["p"]), IR.func("H", ["p", "b"] + list(mapped[1:]), ["q"], fail_args=[f"F.p({m0}={v})" for v in fail_vals])]
     elif kind == "multi":
         nodes = [IR.func("F", ins, ["p", "r"], fail_args=list(fail_vals))]
     elif kind == "branch":
@@ -64,9 +68,7 @@ def mapping_job(rng, kind, mapped, lens, mode_map, eh, runner_mode, rename, fail
         for o in n["outputs"]:
             if o not in outs:
                 outs.append(o)
-    ins = list(mapped) + ["b"]
-    if kind == "chain":
-        ins = list(mapped) + ["b"]
+    ins = sorted(mapped) + ["b"]          # the inner graph's own parameter order; `mapped` is the map_over order
     wrapper_in = [(p + "s" if (rename and p in mapped) else p) for p in ins]
     wrapper_out = [(o + "_list" if rename else o) for o in outs]
     gn = IR.graph_node(sub, name="inner", inputs=wrapper_in, inmap=[[w, p] for w, p in zip(wrapper_in, ins)],
@@ -178,11 +180,12 @@ def compare_map(ctx, job, m, o, tag):
         first = exp[failing[0]]
         if o["raised"]["kind"] != "body" or o["raised"]["path"] != first["err"]["path"]:
             return ctx.violation("raise-mode-wrong-error", wit, f"raised {o['raised']}, expected the error of item {failing[0]} ({first['err']})")
-        want_args = sorted(map(tuple, first["inputs"]))
-        got = sorted(map(tuple, o["raised"].get("args", [])))
-        node_args = {a for a in got}
-        if not node_args <= set(want_args):
-            return ctx.violation("raise-mode-not-first-failing-item", wit, f"raised the error of an item with arguments {got}; first failing item in input order has inputs {want_args}")
+        # the failing invocation must belong to the FIRST failing item in input order: its arguments are
+        # built from that item's mapped values
+        item_vals = [v for name, v in first["inputs"] if name in job["map"]["over"]]
+        got_text = json.dumps(o["raised"].get("args", []))
+        if not all(v in got_text for v in item_vals):
+            return ctx.violation("raise-mode-not-first-failing-item", wit, f"raised the error of an invocation with arguments {o['raised'].get('args')}; first failing item in input order is {item_vals}")
         return False
     if "raised" in o:
         return ctx.violation("unexpected-raise", wit, f"map raised {o['raised']}")
@@ -199,9 +202,9 @@ def compare_map(ctx, job, m, o, tag):
 
 def map_jobs(rng, thorough):
     jobs = []
-    kinds = ["single", "chain", "multi", "branch"]
+    kinds = ["single", "chain", "chain2", "multi", "branch"]
     for kind in kinds:
-        for mapped in (["x"], ["x", "y"]):
+        for mapped in (["x"], ["x", "y"], ["y", "x"]):
             for mode_map in ("zip", "product"):
                 lens_opts = [(n,) for n in range(0, 4)] if len(mapped) == 1 else [(a, b) for a in range(0, 4) for b in range(0, 4)]
                 for lens in lens_opts:
@@ -216,7 +219,7 @@ def map_jobs(rng, thorough):
                                                    [item_names(mapped[0], lens[0])[i] for i in branch_idx])
                                 prog["name"] = "top"
                                 lists, provided = [], [["b", "in.b"]]
-                                for p, n in zip(mapped, lens):
+                                for p, n in sorted(zip(mapped, lens)):      # the caller's dict lists the names alphabetically, whatever map_over says
                                     items = item_names(p, n)
                                     lists.append([list_text(items), items])
                                     provided.append([p, list_text(items)])
@@ -228,8 +231,8 @@ def map_jobs(rng, thorough):
 
 def node_jobs(rng, thorough):
     pairs = []
-    for kind in ("single", "chain", "multi", "branch"):
-        for mapped in (["x"], ["x", "y"]):
+    for kind in ("single", "chain", "chain2", "multi", "branch"):
+        for mapped in (["x"], ["x", "y"], ["y", "x"]):
             for mode_map in ("zip", "product"):
                 lens_opts = [(n,) for n in range(0, 4)] if len(mapped) == 1 else [(a, b) for a in range(0, 4) for b in range(0, 4) if mode_map == "product" or a == b]
                 for lens in lens_opts:
